@@ -230,11 +230,48 @@ func RunC10(c *Ctx) {
 			idx++
 		}
 	}
+	// a handle that is already stale reloads while the list keeps changing: the reload's
+	// first attempt fails half way (a listed table vanishes) and its retry must not keep
+	// anything of the failed attempt
+	pros := []string{"compactall,add", "add,compactall", "add,add,compactall,add", "compactall"}
+	as := []string{"add,read", "addempty,read", "add,read,add,read", "clean,read", "compactall,read"}
+	bs := []string{"add", "add,add", "add,compactall", "compactall,add", "addbig,add"}
+	for pi, pro := range pros {
+		for ai, a := range as {
+			for bi, b := range bs {
+				for ri, rec := range []eng.Recipe{{60, 0, 0}, {0, 0}, {200, 40, 0, 0}} {
+					use := c.Thorough() || ri == 0 || (pi+ai+bi+ri)%3 == 0
+					if use && c.Mine(idx) {
+						run := func() { e.sweepStale("stale-reader-sweep", idx, engCfg(pi+ai+ri), rec, pro, a, b) }
+						if idx%4 == 1 {
+							e.onDisk(run)
+						} else {
+							run()
+						}
+					}
+					idx++
+				}
+			}
+		}
+	}
 	kinds := []string{"add", "add", "read", "read", "read", "compactall", "autocompact", "reopen", "addbig", "compactexpiry", "clean"}
 	n := c.N(2500, 120000)
 	for i := 0; i < n; i++ {
 		if c.Mine(idx) {
-			e.randomScenarioX("random(readers)", idx, c.Seed, kinds, false, 3)
+			run := func() { e.randomScenarioX("random(readers)", idx, c.Seed, kinds, false, 3) }
+			if i%5 == 0 {
+				e.onDisk(run)
+			} else {
+				run()
+			}
+		}
+		idx++
+	}
+	// long sequential churn next to an idle reader (many list versions between two of
+	// its reloads), on the disk-backed file system
+	for i := 0; i < c.N(40, 1500); i++ {
+		if c.Mine(idx) {
+			e.onDisk(func() { e.churnScenario("reader-vs-long-churn", idx) })
 		}
 		idx++
 	}
@@ -305,3 +342,22 @@ func RunC16(c *Ctx) {
 var _ = os.Remove
 var _ = filepath.Join
 var _ = strings.Join
+
+// churnScenario: a reader handle sits idle while a writer performs a long sequence of
+// adds and compactions (list versions with equal table counts recur); the reader then
+// adds / reads. Sequential phases, scheduled under the engine so that all monitors run.
+func (e *engRunner) churnScenario(family string, idx int) {
+	rng := gen.NewRng(gen.Mix(e.c.Seed^0xc4, int64(idx)))
+	gcfg := engCfg(rng.Intn(4))
+	ts := newTxnSource(gen.Mix(e.c.Seed, int64(idx)+9), gcfg.HashSize())
+	var w []string
+	n := 2 + rng.Intn(10)
+	for i := 0; i < n; i++ {
+		w = append(w, []string{"add", "add", "compactall", "cr01", "add,compactall", "addbig"}[rng.Intn(6)])
+	}
+	reader := []string{"add,read", "read,add,read", "addempty,read,add,read", "compactall,read,add,read"}[rng.Intn(4)]
+	scripts := [][]eng.Call{ts.mkCalls(reader), nil, ts.mkCalls(strings.Join(w, ","))}
+	sc := &eng.Scenario{Name: fmt.Sprintf("writer does [%s] while the reader is idle, then reader=[%s]", strings.Join(w, ","), reader), GCfg: gcfg,
+		Init: []eng.Recipe{{0, 0}, {60, 0, 0}, {0, 0, 0}}[rng.Intn(3)], Scripts: scripts, Policy: &eng.Sweep1After{First: 2, A: 0, K: 1 << 30}, SkipTmpWrites: true, PreOpen: true}
+	e.run(sc, family, idx)
+}
